@@ -40,9 +40,13 @@ R = z3.Int("first_stop_index")
 SEEN = TSet(NODE)
 
 
-def stop(k):
+def stop(k, at_nil=True):
+    """the chain stops at index k: broken, (for isValidList) rdf:nil reached, or a cell seen before"""
     j = z3.Int("stop_j")
-    return z3.Or(nth(k) == 0, nth(k) == NIL, z3.Exists([j], z3.And(0 <= j, j < k, nth(j) == nth(k))))
+    alts = [nth(k) == 0, z3.Exists([j], z3.And(0 <= j, j < k, nth(j) == nth(k)))]
+    if at_nil:
+        alts.append(nth(k) == NIL)
+    return z3.Or(*alts)
 
 
 def cell_ok(n, k):
@@ -52,6 +56,8 @@ def cell_ok(n, k):
 
 class ListModel(Model):
     name = "c03_lists"
+
+    stop_at_nil = True        # Graph.items (c19_items) walks through rdf:nil to the end of the chain instead
 
     def __init__(self, relpath=REL, cls="TurtleSerializer"):
         super().__init__()
@@ -76,7 +82,8 @@ class ListModel(Model):
                         z3.ForAll([k], z3.And((first_of(k) == 0) == (nfirst(k) == 0), (rest_of(k) == 0) == (nrest(k) == 0))),
                         z3.Not(is_bnode(NIL)),
                         # R is the first stop index of the chain (exists in a finite graph)
-                        R >= 0, stop(R), z3.ForAll([k], z3.Implies(z3.And(0 <= k, k < R), z3.Not(stop(k))))]
+                        R >= 0, stop(R, self.stop_at_nil),
+                        z3.ForAll([k], z3.Implies(z3.And(0 <= k, k < R), z3.Not(stop(k, self.stop_at_nil))))]
         self.assumptions += ["finite graph: the rdf:rest chain from any node ends or revisits a cell after finitely many "
                              "steps (existence of the first stop index R)",
                              "Graph.value(n, rdf:first / rdf:rest) and predicate_objects(n) are functions of the graph "
